@@ -78,7 +78,8 @@ func (c20Checker) Meta() CheckerMeta {
 }
 
 func c20TopContent(name string, ver int, hasInc bool, inc string, corrupt bool) string {
-	s := fmt.Sprintf("[%sv%d:{{ setname }}]", name, ver)
+	// the part after the marker renders differently under the set's TrimBlocks option
+	s := fmt.Sprintf("[%sv%d:{{ setname }}]{%% if true %%}\nT{%% endif %%}", name, ver)
 	if hasInc {
 		s += `{% include "` + inc + `" %}`
 	}
@@ -634,6 +635,9 @@ func (c20Checker) Run(tp *Tapes, opt RunOpt) *Outcome {
 			hist = append(hist, h)
 		}
 		sort.SliceStable(hist, func(i, j int) bool { return hist[i].Call < hist[j].Call })
+		for _, h := range hist {
+			out.dig(h.What, h.Out)
+		}
 
 		// reach probes over the history
 		c20Probes(out, sp, hist, w)
@@ -717,11 +721,17 @@ func (c20Checker) Run(tp *Tapes, opt RunOpt) *Outcome {
 					}
 				}
 				exp := fmt.Sprintf("[%sv%d:S%d]", sp.Names[op.Name], topVer, cr.set)
+				if cr.set%2 == 0 {
+					exp += "T" // this set has TrimBlocks on
+				} else {
+					exp += "\nT"
+				}
 				if sp.HasInc[op.Name] {
 					exp += fmt.Sprintf("(inc%dv%d)", op.Name, incVer)
 				}
 				nGets := len(w.Gets)
 				got, err := t.Execute(nil)
+				out.dig(got, errStr(err))
 				if err != nil || got != exp {
 					cls := "wrong_content"
 					if err == nil && strings.Contains(got, ":S") && !strings.Contains(got, fmt.Sprintf(":S%d]", cr.set)) {
